@@ -441,13 +441,15 @@ def dsa_corpus(ctx, L, kf, tier):
     add("spki-der", "der", lambda: pub.export_key(format="DER"), schema_max=2)
     inner = key.export_key(format="DER")
     prots = ["PBKDF2WithHMAC-SHA1AndDES-EDE3-CBC", "scryptAndAES256-CBC"]
-    for pr in prots:
-        add("pkcs8-der-enc:" + pr, "der", lambda pr=pr: key.export_key(format="DER", passphrase=PW, protection=pr, prot_params=prot_params(pr)),
-            enc="pkcs8", schema_max=2, inner=inner, protection=pr)
+    # DsaKey.export_key has no prot_params argument (default cost): the second container is built with PKCS8's own PBES2
+    add("pkcs8-der-enc:" + prots[0], "der", lambda: key.export_key(format="DER", passphrase=PW, protection=prots[0]),
+        enc="pkcs8", schema_max=2, inner=inner, protection=prots[0])
+    add("pkcs8-der-enc:" + prots[1], "der", lambda: L.PBES.PBES2.encrypt(inner, PW, prots[1], prot_params(prots[1])),
+        enc="pkcs8", schema_max=2, inner=inner, protection=prots[1])
     add("pkcs8-pem", "pem", lambda: _b(key.export_key(format="PEM")).decode(), schema_max=4)
     add("openssl-pem", "pem", lambda: _b(key.export_key(format="PEM", pkcs8=False)).decode(), schema_max=6)
     add("openssl-pem-legacy-enc", "pem", lambda: _b(key.export_key(format="PEM", pkcs8=False, passphrase=PW)).decode(), enc="pem-legacy", schema_max=6)
-    add("pkcs8-pem-enc", "pem", lambda: _b(key.export_key(format="PEM", passphrase=PW, protection=prots[0], prot_params=prot_params(prots[0]))).decode(),
+    add("pkcs8-pem-enc", "pem", lambda: _b(key.export_key(format="PEM", passphrase=PW, protection=prots[0])).decode(),
         enc="pkcs8", schema_max=2, inner=inner, protection=prots[0])
     add("spki-pem", "pem", lambda: _b(pub.export_key(format="PEM")).decode(), schema_max=2)
     add("openssh-pub", "sshpub", lambda: _b(pub.export_key(format="OpenSSH")))
@@ -653,21 +655,47 @@ class ImporterRun(object):
                     if not hostile and kind.startswith("openssh:bcrypt"):
                         self.offer(e, text, kind, True)
 
+    def _offer_mut(self, e, where, kind, mut, n):
+        if where == "outer":
+            data, views = self.wrap(e, mut)
+            self.offer(e, data, kind, e.needs_pw, views=views)
+            if e.needs_pw and n % 3 == 0:
+                self.offer(e, data, kind, False, views=views)
+        elif where == "inner":
+            self.offer(e, reencrypt(self.L, e, mut), kind + "(inside-encryption)", True, views=[mut])
+        else:
+            self.offer(e, mut, kind, False)
+
     def structural(self, deadline_fraction):
-        """node-level mutations of every entry, interleaved; budget driven"""
-        ctx, rng = self.ctx, self.rng
-        gens = []
-        for e in self.corpus:
-            if e.fmt == "der" or (e.fmt == "pem" and e.enc != "pem-legacy"):
-                clear = e.payload if e.fmt == "pem" else e.data
-                gens.append((e, "outer", M.node_mutations(clear, rng, ctx.tier)))
-            if e.enc is not None and e.fmt in ("der", "pem") and (e.inner is not None or e.enc == "pem-legacy"):
-                gens.append((e, "inner", M.node_mutations(clear_of(self.L, e), rng, ctx.tier)))
-            if e.fmt == "sec1":
-                gens.append((e, "sec1", sec1_mutations(e.data, rng)))
-        t_end = ctx.t0 + (ctx.deadline - ctx.t0) * deadline_fraction
+        """Node-level mutations.  Complete (not budget driven) for the per-TLV damage of the first entry of every
+        distinct format; everything else (other entries, prefixes, bit flips) interleaved until the budget fraction is used."""
         import time
+        ctx, rng = self.ctx, self.rng
+        seen, must, rest = set(), [], []
+        for e in self.corpus:
+            if e.fmt not in ("der", "pem"):
+                if e.fmt == "sec1":
+                    rest.append((e, "sec1", sec1_mutations(e.data, rng)))
+                continue
+            short = e.label.split(":", 2 if e.label.startswith("ecc:") else 1)[-1]         # format (+ protection), without the curve
+            first = short not in seen or ctx.tier == "thorough"
+            seen.add(short)
+            if e.enc != "pem-legacy":
+                clear = e.payload if e.fmt == "pem" else e.data
+                (must if first else rest).append((e, "outer", M.node_mutations(clear, rng, ctx.tier, parts=("nodes",))))
+                rest.append((e, "outer", M.node_mutations(clear, rng, ctx.tier, parts=("prefix", "bitflip"))))
+            if e.enc is not None and (e.inner is not None or e.enc == "pem-legacy"):
+                c = clear_of(self.L, e)
+                (must if first else rest).append((e, "inner", M.node_mutations(c, rng, ctx.tier, parts=("nodes",))))
+                rest.append((e, "inner", M.node_mutations(c, rng, ctx.tier, parts=("prefix", "bitflip"))))
         n = 0
+        for e, where, g in must:
+            for kind, mut in g:
+                n += 1
+                self._offer_mut(e, where, kind, mut, n)
+        ctx.count("structural_mutations_complete_part", n)
+        t_end = ctx.t0 + (ctx.deadline - ctx.t0) * deadline_fraction
+        gens = rest
         while gens and time.time() < t_end:
             alive = []
             for e, where, g in gens:
@@ -677,15 +705,7 @@ class ImporterRun(object):
                     except StopIteration:
                         break
                     n += 1
-                    if where == "outer":
-                        data, views = self.wrap(e, mut)
-                        self.offer(e, data, kind, e.needs_pw, views=views)
-                        if e.needs_pw and n % 3 == 0:
-                            self.offer(e, data, kind, False, views=views)
-                    elif where == "inner":
-                        self.offer(e, reencrypt(self.L, e, mut), kind + "(inside-encryption)", True, views=[mut])
-                    else:
-                        self.offer(e, mut, kind, False)
+                    self._offer_mut(e, where, kind, mut, n)
                 else:
                     alive.append((e, where, g))
             gens = alive
